@@ -21,7 +21,7 @@ class C12(Prop):
     pid = "C12"
     title = "resource tree traversal, lookup and reassembly reflect the stored directory"
     thm_modules = ["PeliteModel.Thm.C12", "PeliteModel.Thm.C12Find"]
-    gens = [gen_res.gen_wellformed, gen_res.gen_corrupt, gen_res.gen_small, gen_walk.gen_shared_dag]
+    gens = [gen_res.gen_wellformed, gen_res.gen_corrupt, gen_res.gen_small, gen_res.gen_offpath, gen_walk.gen_shared_dag]
 
     def oracle(self, op, impl, model, spec):
         w = want(op)
@@ -46,7 +46,9 @@ class C12(Prop):
         # the Lean specification's answer from the abstract tree
         if spec_field(spec, "enc") == "0":
             return "the generator's canonical writer and the reference writer (Spec.encodeTree) disagree"
-        if spec_field(spec, "hyp") == "1":
+        # `local=1` (gen_offpath): the section no longer represents the tree (`hyp=0`) but the lookup's path avoids what
+        # was broken, so the tree's answer must still hold — path locality, Thm/C12Find.lean
+        if spec_field(spec, "hyp") == "1" or re.search(r"(?:^| )local=1(?: |$)", op):
             m = re.search(r"(?:^| )spec=(.*)$", spec)          # last field, may contain blanks
             s = m.group(1) if m else None
             if s is not None and s != "-":
